@@ -326,6 +326,49 @@ def binary_input(data: bytes, rng=None, mode="whole"):
     return SimRaw(data, make_chunker(rng, mode))   # CodedInputStream wraps non-buffered streams in BufferedReader itself
 
 
+def fifo_path_input(data: bytes, rng, workdir: str) -> str:
+    """The stream as a named pipe that a producer fills in pieces of seeded sizes (with a breath between them, so that
+    a read finds less than it asked for); the reader is given the *path name* and opens it itself.  This channel is a
+    real one - how the pieces arrive is up to the kernel and the scheduler - so it can only make a defect show or not
+    show; code that is right reads the same values however they arrive.  The caller unlinks the path."""
+    import threading, time as _time
+    path = tempfile.mktemp(prefix="fifo-", dir=workdir)
+    os.mkfifo(path)
+    sizes = [rng.choice([1, 3, 64, 997, 4099, 65536, 70001]) for _ in range(64)] if rng is not None else [4096]
+
+    def feed():
+        fd = None
+        try:
+            t0 = _time.time()
+            while fd is None and _time.time() - t0 < 10:
+                try:
+                    fd = os.open(path, os.O_WRONLY | os.O_NONBLOCK)
+                except OSError as e:
+                    if e.errno != errno.ENXIO:
+                        return
+                    _time.sleep(0.002)
+            if fd is None:
+                return
+            os.set_blocking(fd, True)
+            pos, j = 0, 0
+            while pos < len(data):
+                k = sizes[j % len(sizes)]
+                j += 1
+                os.write(fd, data[pos:pos + k])
+                pos += k
+                _time.sleep(0.0003)
+        except OSError:
+            pass                      # the reader went away
+        finally:
+            if fd is not None:
+                try:
+                    os.close(fd)
+                except OSError:
+                    pass
+    threading.Thread(target=feed, daemon=True).start()
+    return path
+
+
 def text_input(text: str, rng=None, mode="whole"):
     raw = SimRaw(text.encode("utf-8"), make_chunker(rng, mode) if rng else None)
     return io.TextIOWrapper(io.BufferedReader(raw), encoding="utf-8", newline="\n")
